@@ -107,7 +107,28 @@ def evaluate(name, tier, run_tests, only_checks):
     return out
 
 
+def table():
+    print('| Seeded change | Breaks | What it is | Needs | Repo tests | Caught by (quick) | First mechanism keys |')
+    print('|---|---|---|---|---|---|---|')
+    for n in sorted(os.listdir(SEEDED)):
+        mp = os.path.join(SEEDED, n, 'meta.json')
+        if not os.path.exists(mp):
+            continue
+        m = json.load(open(mp))
+        ev = (m.get('evaluated') or {}).get('quick') or {}
+        th = (m.get('evaluated') or {}).get('thorough') or {}
+        caught = ', '.join(ev.get('caught_by') or []) or ('**missed in quick**' + ('; thorough: ' + ', '.join(th.get('caught_by') or ['missed']) if th else ''))
+        keys = []
+        for c, v in (ev.get('checks') or {}).items():
+            keys += v.get('mechanisms', [])[:2]
+        tests = f"{ev.get('repo_tests_passed', '-')} pass" if 'repo_tests_passed' in ev else '-'
+        print(f"| {n} | {m['property']} | {m.get('summary', '')[:160]} | {m.get('needs', '')[:120]} | {tests} | {caught} | {'; '.join(keys[:3])} |")
+
+
 def main(argv):
+    if argv and argv[0] == 'table':
+        table()
+        return 0
     if not argv or argv[0] != 'eval':
         raise SystemExit(__doc__)
     args = argv[1:]
